@@ -51,29 +51,191 @@ def extract():
     # the lock() helper must lock the one mutex
     if not re.search(r"self\s*\.\s*inner\s*\.\s*lock\s*\(\s*\)", fn_body(imp, "lock")):
         raise ExtractError("fn lock does not lock self.inner")
-    return {
+    facts = {
         "lockCalls": lock_calls,
         "broadcastLockCalls": len(re.findall(r"\bself\s*\.\s*lock\s*\(\s*\)", b)),
         "broadcastSnapshotCalls": len(re.findall(r"\bself\s*\.\s*peers\s*\(\s*\)", b)),
         "broadcastLoopsOverSnapshot": loops,
     }
+    facts.update(forms(src, imp, b, snap))
+    return facts
+
+
+def forms(src, imp, bcast, snap):
+    """Syntactic forms of the branches the model mirrors. A recognised *deviating* form becomes a
+    pessimistic fact (the theorem `source_forms` then fails); anything unrecognised raises
+    ExtractError (fallback to the committed defaults: the tie is then the correspondence alone)."""
+    f = {}
+    # ---- NotifyBody::body_format arms and BodyFormat discriminants
+    consts = strip(read("src/constants.rs"))
+    m = re.search(r"pub enum BodyFormat\s*\{([^}]*)\}", consts)
+    if not m:
+        raise ExtractError("enum BodyFormat")
+    disc = {n: int(v) for n, v in re.findall(r"(\w+)\s*=\s*(\d+)", m.group(1))}
+    nb = impl_block(src, r"impl NotifyBody\s*\{")
+    arms = re.findall(r"NotifyBody::(\w+)\(([^)]*)\)\s*=>\s*([^,]+),", fn_body(nb, "body_format"))
+    tag = {}
+    for var, binds, rhs in arms:
+        rhs = rhs.strip()
+        m1 = re.fullmatch(r"BodyFormat::(\w+)", rhs)
+        if m1 and m1.group(1) in disc:
+            tag[var] = disc[m1.group(1)]
+        elif re.fullmatch(r"\*\s*(\w+)", rhs) and re.fullmatch(r"\*\s*(\w+)", rhs).group(1) in [x.strip() for x in binds.split(",")]:
+            tag[var] = None          # the caller's format, passed through
+        else:
+            raise ExtractError(f"body_format arm {var} => {rhs}")
+    helper = []
+    for h in ("broadcast_notify_json", "broadcast_notify_beve", "broadcast_notify_utf8", "broadcast_notify_raw"):
+        body = fn_body(imp, h)
+        vs = set(re.findall(r"NotifyBody::(\w+)\s*\(", body))
+        if len(vs) != 1 or next(iter(vs)) not in tag:
+            raise ExtractError(f"{h}: NotifyBody variants {vs}")
+        v = next(iter(vs))
+        code = tag[v]
+        if code is None:
+            # Raw: the second constructor argument is the helper's own `body_format` parameter (passed
+            # through) or a literal `BodyFormat::X`
+            lit = re.search(r"NotifyBody::Raw\s*\([^;]*,\s*BodyFormat::(\w+)\s*\)", body)
+            if re.search(r"NotifyBody::Raw\s*\([^;]*,\s*body_format\s*\)", body) and re.search(r"\bbody_format\s*:\s*BodyFormat\b", imp[imp.find("fn " + h):imp.find("fn " + h) + 400]):
+                code = None
+            elif lit and lit.group(1) in disc:
+                code = disc[lit.group(1)]
+            else:
+                raise ExtractError(f"{h}: Raw format argument")
+        if len(re.findall(r"self\s*\.\s*broadcast_each\s*\(", body)) != 1:
+            raise ExtractError(f"{h}: broadcast_each calls")
+        helper.append((h, code))
+    f["helperFormat"] = helper
+    # ---- the send loop of broadcast_each: no guard may skip a peer of the snapshot
+    mloop = re.search(r"\bfor\s+\w+\s+in\s+" + re.escape(snap[0]) + r"\s*\{", bcast) if snap else None
+    if mloop:
+        i = bcast.find("{", mloop.end() - 1)
+        loop = bcast[i + 1:match_brace(bcast, i) - 1]
+        f["broadcastLoopGuards"] = len(re.findall(r"\b(if|continue|break|match|return|while)\b|\?", loop))
+        f["broadcastResultInserts"] = len(re.findall(r"\.insert\s*\(", loop))
+    else:
+        f["broadcastLoopGuards"] = 1
+        f["broadcastResultInserts"] = 0
+    # ---- alias
+    al = fn_body(imp, "alias")
+    pos_check = re.search(r"if\s*!\s*inner\s*\.\s*peers\s*\.\s*contains_key\s*\(\s*&\s*peer_id\s*\)\s*\{", al)
+    pos_insert = re.search(r"inner\s*\.\s*aliases\s*\.\s*insert\s*\(", al)
+    if not pos_insert:
+        raise ExtractError("alias: forward insert not found")
+    if pos_check:
+        f["aliasPresenceCheckFirst"] = pos_check.start() < pos_insert.start()
+    elif "contains_key" not in al and not re.search(r"peers\s*\.\s*get\s*\(", al):
+        f["aliasPresenceCheckFirst"] = False      # no presence check at all
+    elif re.search(r"self\s*\.\s*lock\s*\(\s*\)\s*\.\s*peers\s*\.\s*contains_key", al):
+        f["aliasPresenceCheckFirst"] = False      # checked under a different lock acquisition
+    else:
+        raise ExtractError("alias: presence check form")
+    has_prev = bool(re.search(r"alias_index\s*\.\s*get_mut\s*\(\s*&\s*prev\s*\)", al))
+    if re.search(r"keys\s*\.\s*retain\s*\(\s*\|\s*k\s*\|\s*k\s*!=\s*&\s*key\s*\)", al):
+        f["aliasDetachForm"] = "retain"
+    elif re.search(r"swap_remove\s*\(", al):
+        f["aliasDetachForm"] = "swap_remove"
+    elif re.search(r"keys\s*\.\s*remove\s*\(", al):
+        f["aliasDetachForm"] = "remove_at"
+    elif "retain" not in al:
+        f["aliasDetachForm"] = "none"             # nothing is taken out of the previous owner's list
+    else:
+        raise ExtractError("alias: detach form")
+    if has_prev:
+        f["aliasDetachesPrevOwner"] = True
+    elif re.search(r"alias_index\s*\.\s*get_mut\s*\(\s*&\s*peer_id\s*\)", al) or "get_mut" not in al:
+        f["aliasDetachesPrevOwner"] = False       # detaches from the wrong list / from none
+    else:
+        raise ExtractError("alias: detach target")
+    if re.search(r"entry\s*\(\s*peer_id\s*\)\s*\.\s*or_default\s*\(\s*\)\s*\.\s*push\s*\(\s*key\s*\)", al):
+        f["aliasPushForm"] = "push"
+    elif re.search(r"or_default\s*\(\s*\)\s*\.\s*insert\s*\(\s*0\s*,", al):
+        f["aliasPushForm"] = "insert_front"
+    else:
+        raise ExtractError("alias: push form")
+    if re.search(r"Some\s*\(\s*prev\s*\)\s*if\s+prev\s*==\s*peer_id\s*=>\s*return\s+true", al):
+        f["aliasSameOwnerEarlyReturn"] = True
+    elif not re.search(r"prev\s*==\s*peer_id|peer_id\s*==\s*prev|prev\s*!=\s*peer_id", al):
+        f["aliasSameOwnerEarlyReturn"] = False    # the same-owner case is not distinguished
+    else:
+        raise ExtractError("alias: same-owner form")
+    # ---- remove
+    rm = fn_body(imp, "remove")
+    if not re.search(r"peers\s*\.\s*remove\s*\(\s*&\s*id\s*\)", rm):
+        raise ExtractError("remove: primary removal form")
+    f["removeDropsPeer"] = True
+    if re.search(r"if\s+let\s+Some\s*\(\s*keys\s*\)\s*=\s*inner\s*\.\s*alias_index\s*\.\s*remove\s*\(\s*&\s*id\s*\)\s*\{", rm):
+        f["removeTakesIndexEntry"] = True
+    elif re.search(r"alias_index\s*\.\s*get\s*\(\s*&\s*id\s*\)", rm) or "alias_index" not in rm or re.search(r"alias_index\s*\.\s*remove\s*\(\s*&\s*id\s*\)\s*\.\s*filter", rm):
+        f["removeTakesIndexEntry"] = False        # entry left behind / ignored
+    else:
+        raise ExtractError("remove: reverse-index form")
+    if re.search(r"if\s+inner\s*\.\s*aliases\s*\.\s*get\s*\(\s*&\s*key\s*\)\s*==\s*Some\s*\(\s*&\s*id\s*\)\s*\{\s*inner\s*\.\s*aliases\s*\.\s*remove\s*\(\s*&\s*key\s*\)\s*;\s*\}", rm):
+        f["removePurgeGuard"] = "forward_eq_id"
+    elif re.search(r"aliases\s*\.\s*remove\s*\(\s*&\s*key\s*\)", rm) and len(re.findall(r"\bif\b", rm)) <= 1:
+        f["removePurgeGuard"] = "none"            # purges without the ownership check
+    elif re.search(r"aliases\s*\.\s*remove\s*\(\s*&\s*key\s*\)", rm):
+        f["removePurgeGuard"] = "other"           # a different guard decides what is purged
+    else:
+        raise ExtractError("remove: purge form")
+    # ---- lookups
+    kf = fn_body(imp, "key_for")
+    if re.search(r"keys\s*\.\s*first\s*\(\s*\)", kf):
+        f["keyForPick"] = "first"
+    elif re.search(r"keys\s*\.\s*last\s*\(\s*\)", kf):
+        f["keyForPick"] = "last"
+    else:
+        raise ExtractError("key_for: pick form")
+    gb = fn_body(imp, "get_by")
+    f["getByThroughPeers"] = bool(re.search(r"aliases\s*\.\s*get\s*\(\s*key\s*\)\s*\?", gb) and re.search(r"peers\s*\.\s*get\s*\(\s*&\s*id\s*\)", gb))
+    if not f["getByThroughPeers"]:
+        if re.search(r"peers\s*\.\s*get\s*\(", gb) or re.search(r"\.\s*resolve\s*\(", gb):
+            f["getByThroughPeers"] = True      # still goes through some helper / the peer map: unknown but harmless form
+            f.setdefault("unrecognised", []).append("get_by")
+        elif re.search(r"aliases\s*\.\s*get\s*\(", gb):
+            f["getByThroughPeers"] = False     # resolves the alias without consulting the peer map
+        else:
+            raise ExtractError("get_by: unrecognised form")
+    return f
 
 
 def render(f):
     lc = ", ".join(f'("{n}", {c})' for n, c in f["lockCalls"])
+    hf = ", ".join(f'("{n}", {"none" if c is None else "some " + str(c)})' for n, c in f["helperFormat"])
+    b = lambda x: "true" if x else "false"
+    f = {k: v for k, v in f.items() if k != "unrecognised"}
     return "\n".join([
-        "/-! GENERATED by /verif/extract/peers.py from /repo/src/peer.rs (impl PeerRegistry). -/",
+        "/-! GENERATED by /verif/extract/peers.py from /repo/src/peer.rs (impl PeerRegistry, impl NotifyBody) and src/constants.rs. -/",
         "namespace Repe.Gen.Peers",
         "",
         "/-- For every method of `PeerRegistry` that takes the registry lock: how many times its body calls",
         "`self.lock()` (one call = the whole method is one critical section). -/",
         f"def lockCalls : List (String × Nat) := [{lc}]",
         "",
-        "/-- `broadcast_each`: `self.lock()` calls of its own, `self.peers()` snapshot calls, and whether",
-        "the send loop iterates over that snapshot. -/",
+        "/-- `broadcast_each`: `self.lock()` calls of its own, `self.peers()` snapshot calls, whether the send",
+        "loop iterates over that snapshot, control-flow tokens inside the loop body that could skip a peer",
+        "(`if`/`continue`/`break`/`match`/`return`/`?`), result-map inserts in the loop body. -/",
         f"def broadcastLockCalls : Nat := {f['broadcastLockCalls']}",
         f"def broadcastSnapshotCalls : Nat := {f['broadcastSnapshotCalls']}",
-        f"def broadcastLoopsOverSnapshot : Bool := {'true' if f['broadcastLoopsOverSnapshot'] else 'false'}",
+        f"def broadcastLoopsOverSnapshot : Bool := {b(f['broadcastLoopsOverSnapshot'])}",
+        f"def broadcastLoopGuards : Nat := {f['broadcastLoopGuards']}",
+        f"def broadcastResultInserts : Nat := {f['broadcastResultInserts']}",
+        "",
+        "/-- helper -> format code its `NotifyBody` advertises (`NotifyBody::body_format` arm composed with the",
+        "`BodyFormat` discriminant); `none` = the caller's `body_format` argument passed through. -/",
+        f"def helperFormat : List (String × Option Nat) := [{hf}]",
+        "",
+        "/-- forms of the branches of `alias`, `remove`, `key_for`, `get_by` -/",
+        f"def aliasPresenceCheckFirst : Bool := {b(f['aliasPresenceCheckFirst'])}",
+        f"def aliasSameOwnerEarlyReturn : Bool := {b(f['aliasSameOwnerEarlyReturn'])}",
+        f"def aliasDetachesPrevOwner : Bool := {b(f['aliasDetachesPrevOwner'])}",
+        f"def aliasDetachForm : String := \"{f['aliasDetachForm']}\"",
+        f"def aliasPushForm : String := \"{f['aliasPushForm']}\"",
+        f"def removeDropsPeer : Bool := {b(f['removeDropsPeer'])}",
+        f"def removeTakesIndexEntry : Bool := {b(f['removeTakesIndexEntry'])}",
+        f"def removePurgeGuard : String := \"{f['removePurgeGuard']}\"",
+        f"def keyForPick : String := \"{f['keyForPick']}\"",
+        f"def getByThroughPeers : Bool := {b(f['getByThroughPeers'])}",
         "",
         "end Repe.Gen.Peers", ""])
 
